@@ -361,6 +361,16 @@ def _run_impl(c):
         # preparatory step: an earlier transform zeroed the small values, leaving vectors emptied by it
         t.transform(FUNCS['zero_small'], axis=c['prezero'], inplace=True)
         base = _snap(t)
+    if c.get('presibling'):
+        fmt0 = t.matrix_data.format
+        for ax in ('observation', 'sample'):
+            # nothing is handed to the function for an entry-less vector, so the identity also holds there
+            sib = t.transform(lambda v, i, m: v, axis=ax, inplace=False)
+            sib.add_metadata({str(i): {'sibling_key': 'edited'} for i in sib.ids(axis=ax)}, axis=ax)
+            sib.del_metadata(axis='sample' if ax == 'observation' else 'observation')
+            del sib
+        if t.matrix_data.format != fmt0:         # the layout the case asked for is part of the case
+            t._data = t._data.asformat(fmt0)
     ulog = []
     pre = _arrays(t.matrix_data)
     with Spy() as sp:
@@ -829,6 +839,15 @@ def exhaustive_small():
 
 
 def gen(rng, tier):
+    # history through a SIBLING table: every 5th function-level case first derives another table from the receiver by a
+    # not-in-place transform, edits that table's metadata in place and drops it; the receiver must not notice
+    for n_, c in enumerate(_gen(rng, tier)):
+        if n_ % 5 == 2 and c['kind'] != 'axis_indep' and not _is_cli(c):
+            c = dict(c, presibling=True)
+        yield c
+
+
+def _gen(rng, tier):
     n = 650 if tier == 'quick' else 6500
     for _ in range(n):
         yield gen_case(rng)
